@@ -8,6 +8,7 @@ import (
 	"fmt"
 	"strconv"
 	"strings"
+	"sync/atomic"
 
 	"go.starlark.net/starlark"
 	"go.starlark.net/syntax"
@@ -159,9 +160,19 @@ type c02SrcResult struct {
 	Class string      `json:"class"` // class of the first run
 }
 
+// the thread and budget of the run in progress: the watchdog of the child reports a budget
+// overrun while the program is still running (a program that ignores its budget never returns)
+var (
+	c02CurThread atomic.Pointer[starlark.Thread]
+	c02CurBudget atomic.Uint64
+)
+
 func c02RunOne(src string, opt int, budget uint64) (run c02SrcRun) {
 	run.Opt = opt
 	th := c02Thread(budget)
+	c02CurBudget.Store(budget)
+	c02CurThread.Store(th)
+	defer c02CurThread.Store(nil)
 	defer func() {
 		if r := recover(); r != nil {
 			run.Class, run.Detail = "panic", trunc(fmt.Sprint(r), 300)
